@@ -20,7 +20,7 @@ func worldCheckMain(args []string) {
 	bad := 0
 	delims := runDelims(12345)
 	worlds := append([]*world{}, parseWorlds...)
-	worlds = append(worlds, worldCallbacks, worldDurations)
+	worlds = append(worlds, worldCallbacks, worldDurations, worldMisc)
 	for _, w := range worlds {
 		for _, gen := range []bool{false, true} {
 			if gen && (w.hasGen == nil || !w.hasGen()) {
